@@ -332,7 +332,7 @@ DEFAULT_SPAN_NAMES = [c.__name__ for c in span_token._token_types]
 # fields whose difference from the pristine value can explain an outcome mismatch
 DURABLE_FIELDS = ('block_types', 'span_types', 'root_node_set', 'code_matches', 'parse_setext',
                   'charref_is_stdlib', 'interrupt_paragraph', 'ptag_stack', 'packages', 'listTokens',
-                  'lastChildOfQuotes', 'firstChildOfListItems', 'recursion_limit', 'pygments_style')
+                  'lastChildOfQuotes', 'firstChildOfListItems', 'recursion_limit')
 
 
 def fingerprint(r=None):
